@@ -13,20 +13,23 @@ import json
 import os
 import re
 import shutil
+import time
 
 from . import common as C
 from . import progs
 
 THEOREMS = [
     "deps_topological", "deps_nodup", "deps_mem_iff", "deps_runtime_first", "deps_main_last",
+    "machine_eq_direct", "init_once_after_imports", "init_suspension_invisible", "no_overtaking",
     "var_order", "spec_var_order_respects",
-    "file_order", "file_order_any_sort", "import_order",
+    "file_order", "file_order_any_sort", "init_calls_order", "import_order",
     "read_link_iff", "linkname_parse", "linkname_split", "linkname_split_dotted_last_counterexample",
     "ismethod_value", "ismethod_pointer", "ismethod_func",
-    "linkname_exported_counterexample", "linkname_resolves_partial",
+    "linkname_dotted_package_counterexample", "linkname_exported_counterexample", "linkname_resolves_partial",
 ]
 
 FINDING_EXPORTED = "C10 linkname reference=exported-bodyless-func call=cross-package result=not-a-function"
+FINDING_DOTTED = "C10 linkname implementation-package=dot-in-last-path-element directive=gc-escaped-%2e result=not-a-function"
 
 # --------------------------------------------------------------------------------------
 # (b) directive texts
@@ -171,8 +174,9 @@ class Pkg:
         self.links = []            # linkname references declared here
 
 
-def gen_program(rng, mod, size=None):
-    """Draw a term of the model's language (import DAG, files, declarations) and render it to Go source."""
+def gen_program(rng, mod, size=None, edges=None):
+    """Draw a term of the model's language (import DAG, files, declarations) and render it to Go source.
+    With `edges` (pairs (i, j), i imports j, j < i, index size-1 = main) the import graph is exactly that one."""
     n = size or rng.choice([2, 3, 3, 4, 5, 6, 7])
     dirs = rng.sample(DIRS, n - 1)
     pkgs = [Pkg(i, mod + "/" + d, d.split("/")[-1]) for i, d in enumerate(dirs)]
@@ -183,11 +187,16 @@ def gen_program(rng, mod, size=None):
         if cands:
             k = rng.choice([0, 1, 1, 2, 3]) if p is not mainp else rng.randrange(1, len(cands) + 1)
             p.imports = rng.sample(cands, min(k, len(cands)))
-    imported = {q.idx for p in pkgs for q in p.imports}
-    for p in pkgs[:-1]:
-        if p.idx not in imported:
-            mainp.imports.append(p)
-    rng.shuffle(mainp.imports)
+    if edges is not None:
+        for p in pkgs:
+            p.imports = [pkgs[j] for (i, j) in edges if i == p.idx]
+            rng.shuffle(p.imports)
+    else:
+        imported = {q.idx for p in pkgs for q in p.imports}
+        for p in pkgs[:-1]:
+            if p.idx not in imported:
+                mainp.imports.append(p)
+        rng.shuffle(mainp.imports)
     ident = 0
     # variables, functions, init functions
     for p in pkgs:
@@ -257,7 +266,7 @@ def gen_program(rng, mod, size=None):
             p.vars = hidden + ["X"]
             rng.choice(p.files)["src"].append("func F() int { return %s }\n" % " + ".join(["2"] + hidden[:3] + zeros))
     # linkname edges: (reference package, implementation package, kind)
-    nlinks = rng.choice([0, 1, 2, 3, 4])
+    nlinks = rng.choice([0, 1, 2, 3, 4]) if edges is None else 0
     lid = 0
     for _ in range(nlinks):
         a, b = rng.sample(pkgs, 2)
@@ -389,13 +398,20 @@ def project(toks, path):
     return out
 
 
-def program_tie(chk, tier, scratch, nprog, targeted=False):
+def all_dags(n):
+    """every import DAG on n packages numbered in a topological order (edges i -> j with j < i)"""
+    pairs = [(i, j) for i in range(n) for j in range(i)]
+    for mask in range(1 << len(pairs)):
+        yield [pr for b, pr in enumerate(pairs) if mask >> b & 1]
+
+
+def program_tie(chk, tier, scratch, nprog, targeted=False, dags=None):
     gopath = os.path.join(scratch, "gopath")
     os.makedirs(gopath, exist_ok=True)
     progsl, jobs = [], []
-    for k in range(nprog):
-        mod = "gvq%dx%d%s" % (chk.seed, k, "t" if targeted else "")
-        g = gen_program(chk.rng, mod)
+    for k in range(nprog if dags is None else len(dags)):
+        mod = "gvq%dx%d%s" % (chk.seed, k, "t" if targeted else ("e" if dags is not None else ""))
+        g = gen_program(chk.rng, mod) if dags is None else gen_program(chk.rng, mod, size=dags[k][0], edges=dags[k][1])
         progsl.append(g)
         variants = ["plain"] + (["minify"] if k % 5 == 0 else [])
         jobs.append({"id": "p%d" % k, "mod": mod, "files": g["files"], "variants": variants, "native": True, "timeout": 300})
@@ -637,6 +653,29 @@ def finding_exported(chk, scratch):
                 kind=lambda o, a: "linkname-call:" + o.split()[2])
 
 
+def finding_dotted(chk, scratch):
+    """Witness of the second recorded finding: the implementation lives in a package whose LAST path element contains a
+    dot (`<mod>/pk.v2`). gc requires the escaped spelling `pk%2ev2` in the directive; GopherJS does not unescape it (and
+    splits the plain spelling at the wrong dot), so the reference stays undefined and the call fails at run time."""
+    gopath = os.path.join(scratch, "gopath")
+    mod = "gvq%ddot" % chk.seed
+    files = {
+        "main.go": "package main\n\nimport (\n\t_ \"%s/pk.v2\"\n\t_ \"unsafe\"\n)\n\n//go:linkname f %s/pk%%2ev2.impl\nfunc f(x int) int\n\nfunc main() { println(\"L\", \"f\", f(5)) }\n" % (mod, mod),
+        "stub.s": "",
+        "pk.v2/p.go": "package pk\n\nfunc impl(x int) int { return x + 9000 }\n",
+    }
+    r = run_prog_jobs([{"id": "dotted", "mod": mod, "files": files, "variants": ["plain"], "native": True, "timeout": 300}], gopath, par=1)[0]
+    nat = progs.observe_native(r["runs"]["native"])
+    js = progs.observe_js(r["runs"]["plain"])
+    chk.add_case("finding", "dotted-last-element", kindkey="finding:dotted-last-element")
+    ops = ["ln dotted esc"]
+    impl = ["resolved" if "L f 9005" in js[0] else "unresolved"]
+    spec = ["resolved" if "L f 9005" in nat[0] else "unresolved:" + nat[1][:100]]
+    chk.compare("linkname-call", ops, impl, C.run_driver("C10", ops), spec=spec,
+                signature=lambda o, a, c: FINDING_DOTTED if a == "unresolved" and "is not a function" in r["runs"]["plain"].get("stderr", "") else None,
+                kind=lambda o, a: "linkname-call:dotted-package")
+
+
 # --------------------------------------------------------------------------------------
 
 def sym_tie(chk, tier):
@@ -694,11 +733,12 @@ def run(tier, seed):
                        "unicode.IsSpace is modelled on Latin-1 only",
                        "cross-package order is compared with native Go only as the partial order `after imports` (Go >= 1.21 sorts by path)"]
     chk.proof = C.check_proofs("C10", THEOREMS, tier)
+    C.log("[C10] proofs checked %.0fs" % (time.time() - chk.t0))
     C.build_gvh("gvh_c10")
     scratch = C.scratch("c10")
     try:
         # (b) directives
-        n = 60000 if tier == "thorough" else 6000
+        n = 60000 if tier == "thorough" else 5000
         jobs, ops, _ = gen_linkname_files(chk.rng, n)
         p = C.run_gvh(["linkname"], jobs, name="gvh_c10")
         if p.returncode != 0:
@@ -712,14 +752,22 @@ def run(tier, seed):
         chk.compare("ParseGoLinknames", ops, impl, C.run_driver("C10", ops), kind=ln_kind)
         sym_tie(chk, tier)
         graph_selftest(chk, tier)
+        C.log("[C10] directive ties done %.0fs" % (time.time() - chk.t0))
         build_error_tie(chk, scratch)
         finding_exported(chk, scratch)
+        finding_dotted(chk, scratch)
+        C.log("[C10] build errors / witness done %.0fs" % (time.time() - chk.t0))
         # (a)+(c) programs
-        nprog = 150 if tier == "thorough" else 16
+        nprog = 150 if tier == "thorough" else 14
         total = program_tie(chk, tier, scratch, nprog)
         if chk.tie_breaks or [m for m in chk.mismatches if not chk.known_match(m.get("signature"))]:
             # a tie broke: search harder for an input on which the property itself fails
             total += program_tie(chk, tier, scratch, 120, targeted=True)
+        if tier == "thorough":
+            # exhaustive sub-space: every import DAG on up to 4 packages (3 libraries + main)
+            dags = [(n, e) for n in (2, 3, 4) for e in all_dags(n)]
+            total += program_tie(chk, tier, scratch, 0, dags=dags)
+            chk.extra["exhaustive_subspace"] = "all %d import DAGs on 2..4 packages (topologically numbered, main last)" % len(dags)
         chk.extra["programs"] = total
     finally:
         shutil.rmtree(scratch, ignore_errors=True)
